@@ -47,7 +47,10 @@ CONSTANTS Sess,       \* session names
 
 None == "none"
 Streams == Reqs \cup {"sa"}
-Origins == Streams \cup {"bc"}       \* who writes: the handler of a request, code outside any request, a broadcast
+CN(r) == "c." \o r                   \* the goroutine announcing that a nested call of request r was abandoned
+Origins == Streams \cup {"bc"} \cup {CN(r) : r \in Reqs}
+                                     \* who writes: the handler of a request, code outside any request, a
+                                     \* broadcast, a cancellation notifier
 WireId(r) == IF r \in DOMAIN DupOf THEN DupOf[r] ELSE r
 PX(s, r) == "p." \o s \o "." \o r
 Posts == {PX(s, r) : s \in Sess, r \in Reqs}
@@ -158,6 +161,16 @@ Ans(s, r) ==
   /\ h' = [h EXCEPT ![s][r].pc = "run"]
   /\ UNCHANGED <<cfg, alive, str, tmp, rs, log, lock, tlock, x, recv, wr, nsa, issued, okEnd>>
 
+\* the handler abandons its pending server->client call (the call's context is cancelled): the call returns
+\* at once and `notifications/cancelled` is sent off the return path, with the values of the handler's
+\* context (context.WithoutCancel), i.e. still related to request r
+HAbandon(s, r) ==
+  /\ h[s][r].pc = "wait" /\ wr[s][CN(r)].pc = "idle"
+  /\ wr' = [wr EXCEPT ![s][CN(r)] = [NoWrite EXCEPT !.pc = "route",
+                                                    !.pl = [s |-> s, o |-> r, k |-> "cancel", n |-> h[s][r].q]]]
+  /\ h' = [h EXCEPT ![s][r].pc = "run"]
+  /\ UNCHANGED <<cfg, alive, str, tmp, rs, log, lock, tlock, x, recv, nsa, issued, okEnd>>
+
 \* the handler returns: the response is written
 HRet(s, r, g) ==
   /\ h[s][r].pc = "run" /\ wr[s][r].pc = "idle" /\ g \in GateChoice
@@ -197,7 +210,7 @@ BcastDone(s, r) ==
 
 \* the write of origin o has returned to its caller
 HandlerAfter(hh, s, o, ok) ==
-  IF o \in {"sa", "bc"} THEN hh
+  IF o \notin Reqs THEN hh
   ELSE [hh EXCEPT ![s][o].pc = CASE @ = "busy" -> "run"
                                  [] @ = "busyq" -> IF ok THEN "wait" ELSE "run"
                                  [] @ = "ret" -> "done"
@@ -206,7 +219,7 @@ HandlerAfter(hh, s, o, ok) ==
 \* Write, first critical section (c.mu): routing
 WRoute(s, o) ==
   LET w == wr[s][o]
-      rel == IF w.resp THEN o ELSE IF Json \/ o \in {"sa", "bc"} THEN None ELSE o
+      rel == IF w.resp THEN o ELSE IF Json \/ o \in {"sa", "bc"} THEN None ELSE w.pl.o
       tgt == IF rel # None THEN (IF rel \in rs[s] /\ str[s][rel].ex THEN rel ELSE None) ELSE "sa"
       refused == w.pl.k = "sreq" /\ Stateless
   IN
@@ -387,7 +400,7 @@ SdkEnabled ==
         \/ x[e].pc = "rel" /\ lock[x[e].s][x[e].st] = None
         \/ x[e].pc = "closing" /\ h[x[e].s][x[e].st].pc = "done"
 EnvNext ==
-  \/ \E s \in Sess, r \in Reqs : Ans(s, r) \/ HBcast(s, r) \/ (\E g \in BOOLEAN : PostStart(s, r, g) \/ HEmit(s, r, g) \/ HSreq(s, r, g) \/ HRet(s, r, g))
+  \/ \E s \in Sess, r \in Reqs : Ans(s, r) \/ HBcast(s, r) \/ HAbandon(s, r) \/ (\E g \in BOOLEAN : PostStart(s, r, g) \/ HEmit(s, r, g) \/ HSreq(s, r, g) \/ HRet(s, r, g))
   \/ \E s \in Sess, g \in BOOLEAN : Sa(s, g)
   \/ \E g \in Gets, s \in Sess, t \in Streams, i \in -1..(MaxEmit + MaxSreq + MaxSa + 3 * MaxBc + 2), hg \in BOOLEAN : Get(g, s, t, i, hg)
   \/ \E e \in Exch : Cut(e)
@@ -426,7 +439,7 @@ RefusedOnlyOnConflict == \A g \in Gets : x[g].pc # "idle" => x[g].status \in {0,
 ResponseOnOwnExchange == \A e \in Exch : \A j \in 1..Len(recv[e]) :
      recv[e][j].pl.k = "resp" => recv[e][j].pl.s = x[e].s /\ recv[e][j].pl.o = x[e].st
 NestedRouting == \A e \in Exch : \A j \in 1..Len(recv[e]) :
-     /\ recv[e][j].pl.k \in {"notif", "sreq"} =>
+     /\ recv[e][j].pl.k \in {"notif", "sreq", "cancel"} =>
           /\ recv[e][j].pl.s = x[e].s
           /\ IF recv[e][j].pl.o = "sa" \/ Json THEN x[e].st = "sa" ELSE x[e].st = recv[e][j].pl.o
      \* a broadcast is, for every receiving session, a message outside any of its requests
